@@ -219,6 +219,23 @@ def with_look(R, d):
     if not c:
         return d
     l = R.choice(c)
+    if R.random() < 0.3:
+        # a second leaf matching the same text only in some contexts, at a higher or lower explicit priority
+        # (the winner then depends on what follows the match)
+        sh = Leaf('regex', '(?:' + l.pat + ')' + R.choice(LOOKS_END), prio=R.choice([90, 90, 0]))
+        sh.look = True
+        d.leaves.append(sh)
+        return d
+    if R.random() < 0.25:
+        # the assertion needs the next byte, and another pattern continues through that byte: the state entered by
+        # the look-ahead byte records the first pattern's match one byte late *and* has outgoing edges
+        base = l.pat
+        l.pat = '(?:' + base + ')' + R.choice(['(?-u:\\b)', '(?m:$)', '(?-u:\\b{end})', '(?mR:$)', '(?-u:\\B)'])
+        l.look = True
+        d.leaves.append(Leaf('regex', '(?:' + base + ')' + R.choice([' !', '\\n\\n', '-[a-z]+', '\\r\\n;', '[ -/]{2}', 'x_', '\\n[a-z]'])))
+        if R.random() < 0.5:
+            d.leaves.append(Leaf(R.choice(['regex', 'skip']), R.choice(['[ \\n]', ' ', '\\r?\\n'])))
+        return d
     if R.random() < 0.5:
         l.pat = '(?:' + l.pat + ')' + R.choice(LOOKS_END)
     else:
@@ -265,6 +282,14 @@ def fixed_corpus():
     out.append(Def([L('regex', '[a-z]+(?mR:$)'), L('regex', '[a-z]+;'), L('regex', '\\r?\\n'), L('regex', '\\r', prio=1)], origin='fixed:look-crlf'))
     out.append(Def([L('regex', 'ab(?-u:\\b)c'), L('token', 'abd'), L('regex', 'a(?-u:\\b{end-half})'), L('regex', '[b-z]+(?m:$)\\n?')],
                    origin='fixed:look-unsat'))
+    # a late-accept state (entered by the look-ahead byte) that still has outgoing edges into a longer match
+    out.append(Def([L('regex', '[a-z]+(?-u:\\b)'), L('regex', '[a-z]+ !'), L('token', ' '), L('regex', '[0-9]+(?m:$)'), L('regex', '[0-9]+\\n\\n'),
+                    L('regex', '\\n')], origin='fixed:look-late'))
+    # the same text matched by two patterns, one of them only in some contexts, at different priorities
+    out.append(Def([L('regex', '[a-z]+'), L('regex', 'end$', prio=100), L('token', 'a', prio=3), L('regex', 'a(?-u:\\b)', prio=10), L('skip', ' ')],
+                   origin='fixed:look-prio'))
+    out.append(Def([L('regex', '[a-z]+', prio=50), L('regex', '[a-z]+$', prio=1), L('regex', '[0-9]+(?m:$)', prio=9), L('regex', '[0-9]+', prio=2),
+                    L('regex', '\\n')], origin='fixed:look-prio2'))
     out.append(Def([L('regex', '#(?-u:\\b{start})[a-z]+'), L('regex', '[a-z]+(?-u:\\b{end})'), L('regex', '[a-z]+[0-9]+'), L('token', '#'),
                     L('skip', ' ')], origin='fixed:look-startend'))
     # string / comment style tokens, lazy and greedy
